@@ -180,6 +180,9 @@ def check(ctx):
     ctx.ob("SIB.containers.type-nested", du, "the type is restored at every nesting level (not only when _return_collections)", unconditional, "" if unconditional else "tuples/sets nested inside other containers (the recursive calls pass _return_collections=False) come back as lists")
     ok = bool(find("args = Dict([[k, v] for k, v in zip(keyargs, valargs)])", du))
     ctx.ob("SIB.containers.dict-pairs", du, "dict keys and values are re-paired positionally", ok)
+    place = [n for n in ast.walk(dk) if isinstance(n, ast.ListComp) and "placed[i] if i in placed else next(rest)" in unparse(n)]
+    ok = len(place) == 1 and unparse(place[0].generators[0].iter) == "range(len(all_keys) + len(placed))" and bool(find("rest = iter(all_keys)", dk))
+    ctx.ob("ORD.sequence-positions.merge", dk, "__dask_keys__ fills slot i with the group member recorded for i, else with the next ungrouped key: one pass over all output slots", ok, "" if ok else "the recorded positions are applied one after the other to a list that is still growing: with three or more optimizer kinds interleaved the keys land in the wrong slots")
 
 
 VARIANTS = [
